@@ -635,7 +635,8 @@ Theorem process_data_below cx s ip r s' rep tags W k :
   s_remote_seq_no s' = s_remote_seq_no s /\ s_state s' = Established /\
   s_rx_fin_received s' = s_rx_fin_received s /\
   ((exists p, rep = Some p /\ pure_ack_of s' (Some p) /\
-              rb_len (s_rx_buffer s) <= rb_len (s_rx_buffer s'))
+              rb_len (s_rx_buffer s) <= rb_len (s_rx_buffer s') /\
+              (0 < W -> k = 0 -> rb_len (s_rx_buffer s) < rb_len (s_rx_buffer s')))
    \/ (rep = None /\ s_remote_last_ack s' = s_remote_last_ack s /\
        exists m, 1 <= m /\ rb_len (s_rx_buffer s') = rb_len (s_rx_buffer s) + m)).
 Proof.
@@ -660,12 +661,20 @@ Proof.
   2:{ (* not acceptable: an ACK at once (the payload is not empty) *)
       inversion H; subst s' rep tags; clear H.
       unfold tcp_process_window in H2. rewrite Hst in H2.
+      assert (Hk0 : 0 < W -> k = 0 ->
+                fst (tcp_segment_in_window (tcp_window_start s) (tcp_window_end s) (r_seq_number r)
+                       (seq_add (r_seq_number r) (l_len (r_payload r)))) = true).
+      { intros HW0 ->. rewrite Hseq, Hwe, Z.sub_0_r.
+        pose proof (window_start_range s) as Hws.
+        rewrite (seq_norm_small _ Hws).
+        apply in_window_at_start; [exact Hws | lia | exact Hlen]. }
       destruct (tcp_segment_in_window _ _ _ _) as (inw, tg).
       destruct inw.
       { destruct (negb (seq_le _ _)); [discriminate|].
         repeat match type of H2 with
                | (do _ <- ?m; _) = _ => destruct m; cbn [obind] in H2; try discriminate
                end. }
+      cbn [fst] in Hk0.
       assert (Hnr : control_eqb (r_control r) CRst = false) by (destruct Hctl as [-> | ->]; reflexivity).
       rewrite Hnr in H2. cbn [tcp_state_eqb] in H2.
       assert (Hpl : (match r_payload r with [] => false | _ => true end) = true).
@@ -677,7 +686,8 @@ Proof.
       inversion H2; subst s2r rep2; clear H2.
       destruct (ack_reply_rcv _ _ _ _ _ _ Har) as (Hp & (R1 & R2 & R3 & R4 & R5)).
       split; [exact R2|]. split; [congruence|]. split; [exact R3|].
-      left. exists p. split; [reflexivity|]. split; [exact Hp | rewrite R1; lia]. }
+      left. exists p. split; [reflexivity|]. split; [exact Hp|]. split; [rewrite R1; lia|].
+      intros HW0 Ek. specialize (Hk0 HW0 Ek). discriminate. }
   destruct P2 as (Hin & -> & -> & ->).
   (* in the window: the part at and after RCV.NXT is not empty and lands at offset 0 *)
   unfold trim_off, trim_lo, trim_len in *.
@@ -721,7 +731,7 @@ Proof.
     as (m & Hm & L & C & Sq & St & Fi & Sh & Hack8).
   split; [congruence|]. split; [congruence|]. split; [congruence|].
   destruct Hack8 as [(p & -> & A1 & A2 & A3 & A4) | (-> & Ha & _)].
-  - left. exists p. split; [reflexivity|]. split; [unfold pure_ack_of; auto|]. rewrite L, E2. lia.
+  - left. exists p. split; [reflexivity|]. split; [unfold pure_ack_of; auto|]. rewrite L, E2. split; [lia|]. intros _ _. lia.
   - right. split; [reflexivity|]. split; [congruence|]. exists m. split; [lia|]. rewrite L, E2. reflexivity.
 Qed.
 
